@@ -586,6 +586,9 @@ import logging as _logging
 
 # integer constants of the standard library that repository code uses by name (values read from the running interpreter)
 STDLIB_INT_CONSTS = {'logging.' + n: getattr(_logging, n) for n in ('NOTSET', 'DEBUG', 'INFO', 'WARNING', 'ERROR', 'CRITICAL')}
+import os as _os
+
+STDLIB_INT_CONSTS.update({'os.' + n: getattr(_os, n) for n in ('O_RDONLY', 'O_WRONLY', 'O_RDWR', 'O_CREAT', 'O_TRUNC', 'O_APPEND', 'O_EXCL') if hasattr(_os, n)})
 
 
 def _const_eval(node, env):
@@ -1069,6 +1072,12 @@ class Engine:
             if isinstance(v, z3.ExprRef) and v.sort() == U:
                 return SExc(term=v)  # `raise exc` of an exception object obtained from a modelled call
             return SExc(node.id)
+        if isinstance(node, (ast.Attribute, ast.Subscript)):
+            v = self.ev(node, st)
+            if isinstance(v, SExc):
+                return v
+            if isinstance(v, z3.ExprRef) and v.sort() == U:
+                return SExc(term=v)  # `raise self._stored_exception`
         raise Undecided('raise of %s' % ast.unparse(node))
 
     # ---- assignment
@@ -2413,6 +2422,25 @@ class Engine:
                 st.assume(f(v) >= 0)
                 return f(v)
             raise Undecided('len of %r' % (v,))
+        if name in ('min', 'max') and len(args) == 1 and isinstance(args[0], tuple) and len(args[0]) == 2 and isinstance(args[0][0], str) and args[0][0] in ('mapvalues', 'mapkeys') and isinstance(args[0][1], SMap):
+            # min / max over the values (keys) of a finite map: a member that bounds all members; `default` for an empty map
+            m = args[0][1]
+            which = args[0][0]
+            srt = sort_of(m.vt if which == 'mapvalues' else m.kt)
+            if srt != z3.IntSort():
+                raise Undecided('%s over non-integer map %s' % (name, which))
+            kws = {k.arg: self.ev(k.value, st) for k in node.keywords}
+            r = z3.Int(fresh_name(name + '_of_map'))
+            k1, k2 = z3.Const(fresh_name('mm_k'), sort_of(m.kt)), z3.Const(fresh_name('mm_j'), sort_of(m.kt))
+            elem = (lambda k: z3.Select(m.val, k)) if which == 'mapvalues' else (lambda k: k)
+            cmp = (lambda a, b: a <= b) if name == 'min' else (lambda a, b: a >= b)
+            nonempty = z3.And(z3.Exists([k1], z3.And(z3.Select(m.has, k1), elem(k1) == r)), z3.ForAll([k2], z3.Implies(z3.Select(m.has, k2), cmp(r, elem(k2)))))
+            if 'default' in kws:
+                st.assume(z3.If(m.size > 0, nonempty, r == self.num(kws['default'])))
+            else:
+                self.oblige(st, 'safety/%s-of-a-non-empty-map@L%d' % (name, node.lineno), m.size > 0, kind='safety')
+                st.assume(nonempty)
+            return r
         if name in ('min', 'max'):
             if len(args) == 1 and isinstance(args[0], tuple):
                 args = list(args[0])
